@@ -424,6 +424,14 @@ def judgeParse (cfg : ParseCfg) (cid : String) (o : Op) (hs : HState) (out : Out
       let okc := cores == tabC.nCores && dists == tabC.nDists && sets == tabC.nSets
       out := out.v cid o.n "C18" "D" okc
         s!"unique cores/distance vectors/sets: impl={cores}/{dists}/{sets} model={tabC.nCores}/{tabC.nDists}/{tabC.nSets}"
+      -- the tables of shared transition / reduce vectors (`core_symb_vect_new_all_stop`): one triple per
+      -- (core, symbol) with a vector, one stored vector per distinct non-empty content
+      -- (Model/VectShare.lean, `share_canonical`)
+      if (kv ws "pairs").isSome then
+        let vc := BS.vectCounts tabC
+        let impl := [kvInt ws "pairs", kvInt ws "tvects", kvInt ws "tvlen", kvInt ws "rvects", kvInt ws "rvlen"]
+        out := out.v cid o.n "C18" "D" (impl == vc.map Int.ofNat)
+          s!"(core, symbol) pairs / unique transition vectors, their length / unique reduce vectors, their length: impl={impl} model={vc}"
     | none => pure ()
   -- the same at level 2 (Model/BuildSet2.lean, `buildPLC2_eq_buildPL2`): situations carry their
   -- context; the `la` line of the hook gives the lookahead set of every situation
